@@ -492,6 +492,14 @@ def tree_oracle(inp):
     crit, md, msl = inp["criterion"], inp["max_depth"], inp["min_samples_leaf"]
     bad = []
     model = PiecewiseTreeRegressor(criterion=crit, max_depth=md, min_samples_leaf=msl)
+    if inp.get("failed_fit_first"):
+        # history: an earlier fit of the same instance failed inside scikit-learn (NaN target)
+        ybad = y.copy()
+        ybad[0] = numpy.nan
+        try:
+            model.fit(X, ybad)
+        except Exception:  # noqa: BLE001
+            pass
     try:
         model.fit(X, y)
         pred = model.predict(Xq)
@@ -564,7 +572,7 @@ def search(ctx, hints):
         inp = {"X": moment_X(ids, d), "y": [rng.randint(-9, 9) + (3 * i if i % 2 else -i) for i in ids],
                "Xq": moment_X(rng.sample(range(pool), 4), d), "criterion": rng.choice(["mselin", "mselin", "simple"]),
                "max_depth": rng.choice([1, 2, 3, None]), "min_samples_leaf": rng.choice([1, 2, 3, 5]),
-               "oracle": "tree"}
+               "oracle": "tree", "failed_fit_first": t % 5 == 2}
         evals += 1
         nontriv.add(("tree", t))
         for key, what, obs, req in tree_oracle(inp):
